@@ -11,6 +11,8 @@ from gosym.protomodel import sym_message
 from checks.handlers import *
 
 GRPCPKG = 'go.6river.tech/mmmbbb/grpc.'
+# request fields holding resource names -> kind (None: the kind of the request's own resource)
+NAME_FIELDS = {'Name': None, 'Topic': 'topics', 'Subscription': 'subscriptions', 'Snapshot': 'snapshots', 'DeadLetterTopic': 'topics', 'Project': 'project'}
 
 
 def interceptors(prog):
@@ -47,7 +49,20 @@ def main():
 
         def harness(ex, ob, h=h):
             db = reldb.sym_db(ex, prog, sizes, exists=True)
-            req = sym_message(ex, h['req_type'], 'req', 2, 2, nil_ok=False)
+            # stored rows carry valid names; name-like request fields range over a boundary vocabulary (valid+known, valid+unknown,
+            # wrong kind, empty, malformed); every other string stays symbolic
+            for e_, kind in (('Topic', 'topics'), ('Subscription', 'subscriptions'), ('Snapshot', 'snapshots')):
+                for r in db.t[e_]:
+                    r.v['name'] = 'projects/p/%s/r%d' % (kind, r.slot)
+
+            def name_hook(ex_, key, fname, ft):
+                if ft != 'string' or fname not in NAME_FIELDS:
+                    return None
+                kind = NAME_FIELDS[fname] or {'Topic': 'topics', 'Subscription': 'subscriptions', 'Snapshot': 'snapshots'}.get(h['req_type'].split('.')[-1], 'topics')
+                vocab = ['projects/p/%s/r0' % kind, 'projects/p/%s/unknown' % kind, 'projects/p/%s/r0' % ('topics' if kind != 'topics' else 'subscriptions'),
+                         '', 'projects//%s/x' % kind, 'projects/p'] if kind != 'project' else ['projects/p', 'projects/q', '', 'p']
+                return (vocab[ex_.choose(len(vocab))],)
+            req = sym_message(ex, h['req_type'], 'req', 2, 2, nil_ok=False, overrides={'#hook': name_hook})
             pre = db.snapshot()
 
             def describe(m):
@@ -55,11 +70,14 @@ def main():
 
             def rp(m, desc):
                 rows = replay.rows_from_model(m, db.schema, pre)
-                scn = {'base_now': str(2 * 10**18), 'rows': rows,
-                       'ops': [{'op': 'grpc', 'service': h['service'], 'method': h['method'], 'request': desc['request'], 'timeout_ms': 300}]}
+                # over the wire, through the real server and its interceptor chain: a panic that is not recovered kills the process
+                scn = {'base_now': str(2 * 10**18), 'rows': rows, 'wire': True,
+                       'ops': [{'op': 'grpc', 'service': h['service'], 'method': h['method'], 'request': desc['request'], 'timeout_ms': 2000}]}
                 out = replay.run_scenarios([scn])[0]
                 path = replay.save_scenario('C16', h['method'] + '-' + ob.cur_label, scn, desc)
                 if 'error' in out:
+                    if ob.cur_label.startswith('no-panic') and ('panic:' in out['error'] or 'goroutine ' in out['error']):
+                        return True, path
                     raise RuntimeError(out['error'][-600:])
                 r = out['results'][0]
                 ob.last_replay = r
@@ -84,8 +102,10 @@ def main():
                     def inner(ex_, a):
                         return ex_.call_named(h['fn'], [srv, a[0], a[1].v if isinstance(a[1], Iface) else a[1]])
                     handler = PyFunc(inner, 'handler')
+                    INFO = 'google.golang.org/grpc.UnaryServerInfo'
+                    info = ex.new_ptr(ex.new_struct(INFO, FullMethod='/google.pubsub.v1.%s/%s' % (h['service'].capitalize(), h['method']))) if INFO in ex.prog.types else None
                     for fn in reversed(chain):
-                        handler = (lambda fn, nxt: PyFunc(lambda ex_, a: ex_.call_named(fn, [a[0], a[1], None, nxt]), 'interceptor'))(fn, handler)
+                        handler = (lambda fn, nxt: PyFunc(lambda ex_, a: ex_.call_named(fn, [a[0], a[1], info, nxt]), 'interceptor'))(fn, handler)
                     resp, err = ex.call_value(handler, [ctx, Iface('*' + h['req_type'], req)])
                     code = 0
                     if err is not None:
